@@ -99,7 +99,14 @@ struct LssRun : NodeEnv {
         if (k == "lss") lssFrame(o);
         else if (k == "storefail") { S().lssStoreFail = (int)o.arg(0); }
         else if (k == "nmt") {
-            uint8_t cs = (uint8_t)o.arg(0); if (nmtUnknown || (dead && cs != 129 && cs != 130)) return; dead = false; if (stored && stNode == 255 && (cs == 129 || cs == 130)) return;
+            uint8_t cs = (uint8_t)o.arg(0); if (nmtUnknown || (dead && cs != 129 && cs != 130)) return; dead = false; 
+            if (stored && stNode == 255 && (cs == 129 || cs == 130)) {   // the stored 'unconfigured' id 255 becomes active: what such a node sends is not constrained, but it must have given up the old id
+                uint8_t oldId = activeId; size_t mk = w.mark(); deliver(Frame(0, 2, {cs, 0})); m = M_PREOP; conf = false; selStrict = selLoose = idStrict = idLoose = 0; cfgNode = 0; cfgBaud = 0; if (stBaud) activeBaud = stBaud;
+                if (oldId != 255) for (size_t i = mk; i < w.evs.size(); i++) if (w.evs[i].kind == EV_TX && w.evs[i].f.id == 0x700u + oldId) { fail("lss/bootup-on-old-id", "frame on " + hex(w.evs[i].f.id) + " after a reset that activates the stored node id 255"); return; }
+                activeId = 255; nodeId = 255; if (N()->NodeId != 255) { fail("lss/node-id", "node id " + std::to_string(N()->NodeId) + " after NMT reset, the stored configuration says 255"); return; }
+                if (N()->Baudrate != activeBaud) { fail("lss/baudrate", "bit rate " + std::to_string(N()->Baudrate) + " after NMT reset, expected " + std::to_string(activeBaud)); return; }
+                cov.hit("reset-activates-node-id-255"); nontrivial = true; safety(); return;
+            }
             size_t mk = w.mark(); deliver(Frame(0, 2, {cs, 0}));
             if (cs == 1) m = M_OP; else if (cs == 2) m = M_STOP; else if (cs == 128) m = M_PREOP;
             else if (cs == 129 || cs == 130) { m = M_PREOP; conf = false; selStrict = selLoose = idStrict = idLoose = 0; cfgNode = 0; cfgBaud = 0; bool changed = false; if (stored && stNode >= 1 && stNode <= 127 && stNode != activeId) { activeId = stNode; changed = true; } if (stored && stBaud) activeBaud = stBaud; checkBoot(mk, "NMT reset"); cov.hit(changed ? "reset-activates-new-node-id" : "reset"); if (changed) nontrivial = true; }
